@@ -4,6 +4,7 @@ import Yaep.Model.Chart
 import Yaep.Model.Recovery
 import Yaep.Model.Api
 import Yaep.Model.Descr
+import Yaep.Model.Earley2
 /-!
 # The judge: compares the observations of the real library with the model
 
@@ -210,6 +211,14 @@ def judgeParse (cfg : ParseCfg) (cid : String) (o : Op) (hs : HState) (out : Out
       let implToks := ((o.first "pltoks").getD []).map toInt
       let modelToks := rr.pl.map fun s => match s.tok with | some k => Int.ofNat k | none => -1
       out := out.v cid o.n "C07" "D" (implToks == modelToks) s!"token numbers of the parse list: impl={implToks} model={modelToks}"
+  -- deep tie at level 2 (dynamic lookahead): items projected to (rule, dot, origin)
+  if la == 2 && (sentence || recOff) && !(o.get "set").isEmpty && n ≤ 60 then
+    let (err2, pl2) := buildPL2 g w
+    if err2 != err then out := out.s cid s!"MODEL-INCONSISTENT level2 error position {err2} vs {err}"
+    let implSets := (o.get "set").map fun ws => strSet (ws.drop 2)
+    let modelSets := pl2.map fun s => strSet (s.map fun it => s!"{it.rule},{it.dot},{it.origin}")
+    out := out.v cid o.n "C09" "D" (implSets == modelSets)
+      (if implSets == modelSets then s!"level-2 sets={modelSets.length}" else s!"level-2 sets differ model={modelSets} impl={implSets}")
   -- C06 -----------------------------------------------------------------------------------
   let attrOf := fun (k : Int) => if k ≥ 0 && k < n then k else (-1 : Int)
   if !sentence && recOff then
